@@ -23,6 +23,14 @@ Reference model (independent of autoarray, written from the property statement):
   the data grid and for mesh vertices alike.  B is a LIST with one point per border pixel: when the source-plane map is
   many-to-one and several border (sub-)pixels land on exactly the same coordinate, that coordinate counts once per
   border pixel in the centroid (the mean is over border pixels, not over distinct coordinates).
+* the law does not depend on the entry point: BorderRelocator.relocated_grid_from / relocated_mesh_grid_from,
+  mesh.relocated_grid_from / relocated_mesh_grid_from and mesh.mapper_grids_from(border_relocator=...) are each checked
+  against it; where it determines the output (one nearest border point) two entry points given the same grid therefore
+  return the same point up to the tolerance of the law (`differs-from-direct-call`).
+* "outside the border" is a statement about radii (own radius > radius of the nearest border point), NOT about the
+  bounding box of the border: a source plane can have all its outliers inside the box [min B, max B] (diagonal corners
+  around a roundish border, the notch of a non-convex one).  The in-box source planes (`inbox_menu`) contain no
+  coordinate beyond the box.
 """
 import math
 
@@ -52,7 +60,18 @@ RULE = (
     "grid is reported as `second-call-different-grid`); finally an INTEGER-dtype source plane (24 x pixel-unit sub-grid "
     "under a seed-drawn integer linear map + shift, 12 integer outliers (9 seed-rotated + 3 lattice directions) substituted for non-border "
     "points, integer mesh vertices: outliers, border points, interior points) through relocated_grid_from, "
-    "relocated_mesh_grid_from and the mesh entry points, classes suffixed `:int-dtype`; non-trivial = the border "
+    "relocated_mesh_grid_from and the mesh entry points, classes suffixed `:int-dtype`; and IN-BOX source planes (ids "
+    "`x:<base transform>`, classes suffixed `:in-box`): the source plane of a base transform in which NO coordinate lies beyond "
+    "the bounding box of the border points - non-border points are replaced by the in-box menu (box corners pulled 1 / 5 / 10 % "
+    "inside, every corner with every fraction, the 4 corners themselves, one point 1 % inside every side, <= 8 border points "
+    "pushed outward x{1.05, 1.3, 2} along their ray and clipped into the box, <= 8 midpoints of pairs of border points: the "
+    "diagonal corners around a roundish border, the notch of a non-convex one), the remaining ones are clipped into the box, the "
+    "mesh vertices are the whole menu + the border points - pushed through BorderRelocator.relocated_grid_from / "
+    "relocated_mesh_grid_from (law) and through mesh.relocated_grid_from, mesh.relocated_mesh_grid_from, "
+    "Rectangular.mapper_grids_from and Delaunay.mapper_grids_from (data grid and mesh vertices; thorough, bases shear and "
+    "blow-up: all three calls on Rectangular, Delaunay and Voronoi): each must obey the law for ITS grid and agree with the direct call wherever the law "
+    "determines the output (`differs-from-direct-call`; a result bitwise equal to the direct call's checked result passes both); "
+    "non-trivial = the border "
     "has >= 3 points and in this case some point was pulled inward AND some point lying outside the smallest border "
     "radius was legitimately left where it was (its nearest border point is not closer to the centroid)"
 )
@@ -78,6 +97,15 @@ ASSUMPTIONS = [
     "offset of 0 or half a pixel per axis",
     "quick tier only: the transform menu is ROTATED over the cases instead of taken in full product (see BOUNDS); which "
     "transforms a case runs is part of the case (its last entry) and does not depend on the seed",
+    "in-box source planes: outliers can only be planted at NON-border points of the data grid, so masks whose unmasked "
+    "pixels are all border pixels carry them with sub-sizes > 1 (and always as mesh vertices) - the outcome census counts the "
+    "cases whose in-box DATA grid had a point that must move (`in-box-moved`); whether a menu point is outside the border is "
+    "decided by the law, not by construction (a border that fills its box has no in-box outlier); the in-box values continue "
+    "the case's many-to-one random stream, so they depend on the case (its plan) and the seed only",
+    "Triangulation.mapper_grids_from relocates through the mesh's own relocated_grid_from / relocated_mesh_grid_from, so in "
+    "the quick tier the in-box planes call those two on the rectangular mesh only and reach them on Delaunay through its "
+    "mapper_grids_from; Voronoi (same code path as Delaunay) and the direct calls on the triangulation meshes join in the "
+    "thorough tier for the bases shear and blow-up",
 ]
 BOUNDS = {
     "quick": "all masks of all frames with <= 9 cells (3 187 masks, incl. 1xN, Nx1, 3x3) + all 511 masks of the 3x3 "
@@ -96,11 +124,17 @@ BOUNDS = {
     "number of unmasked / border / optional-border pixels), so that every mask class with >= 2 masks (405 of the 409 classes of "
     "the tier) meets all 20 transforms (the 4 one-mask classes of these two frames - the full frame and the frame "
     "without its four corners - meet 16). "
+    "In-box source planes (no coordinate beyond the bounding box of the border): ONE of the 10 base transforms per case, "
+    "rotated - base number (mask number + 2 x sub-size-map number) mod 10 for masks with 5 sub-size maps (5 bases per mask, all "
+    "10 over two consecutive masks), (number of the mask in its class + 5 x sub-size-map number) mod 10 for the 3x4 / 4x3 frames "
+    "(2 bases per mask, all 10 over 5 consecutive masks of a class); 20 + 2 min(8, nb) menu points, data grid + (menu + nb + 2) "
+    "mesh vertices, 2 direct + 4 mesh entry-point calls. "
     "The full product is in the thorough tier",
     "thorough": "FULL product masks x sub-size maps x all 20 float transforms (10 earlier + 10 many-to-one), no rotation: "
     "quick's masks + all masks of the 2x5, 5x2, 2x6, 6x2, 3x4, 4x3 frames x 5 sub-size maps + all 65 535 masks of the "
     "4x4 frame x 2 sub-size maps (uniform 2, per-pixel A) + all 65 535 masks of the 4x4 interior of a 6x6 frame x uniform "
-    "1; x 20 source-plane transforms + 1 integer-dtype source plane",
+    "1; x 20 source-plane transforms + 1 integer-dtype source plane + 10 in-box source planes (every base transform; "
+    "bases shear and blow-up through every mesh entry point of Rectangular, Delaunay and Voronoi)",
 }
 
 SUBMAPS = ["u1", "u2", "u3", "pA", "pB"]
@@ -117,6 +151,12 @@ ROTATING = [t for t in TRANSFORMS if t not in FIXED]
 # number of sub-size maps a mask is enumerated with -> (ROTATING per case, M2O per case, ROTATING / M2O window step per
 # sub-size map, M2O window step per mask)
 ROTATION = {5: (4, 2, 2, 2, 1), 2: (3, 3, 3, 5, 3)}
+# "in-box" source planes (ids "x:<base transform>"): the source plane of the base transform in which NO coordinate lies
+# beyond the bounding box of the border points - every non-border point that is replaced is replaced by a point of the
+# in-box menu (`inbox_menu`: outside the border only in the corners / notches that the border leaves inside its own
+# bounding box), every other non-border point is clipped into the box.  quick: one base per case, rotated (`plan`).
+INBOX_BASES = list(TRANSFORMS)
+INBOX_STEP = {5: 2, 2: 5}  # number of sub-size maps of the mask -> step of the base per sub-size map
 # integer source planes: 24 x (pixel-unit sub-grid) is integer for every sub-size <= 4; integer maps with det != 0
 INT_MAPS = [((1, 0), (0, 1)), ((1, 1), (0, 2)), ((2, -1), (1, 1)), ((0, -1), (1, 0)), ((3, 1), (-1, 2))]
 
@@ -143,12 +183,16 @@ def plan(tier, rank, j, nsub):
     starting at rank + 2*j (the 5 sub-size maps of one mask cover the 10 many-to-one transforms exactly once).
     quick, nsub == 2 (rank = number of the mask in its mask class): 3 of the 6 ROTATING transforms, window starting at
     rank + 3*j (the two sub-size maps of one mask cover all 6); 3 many-to-one transforms starting at 3*rank + 5*j (6 of
-    the 10 per mask, all 10 over any two consecutive masks of a class)."""
+    the 10 per mask, all 10 over any two consecutive masks of a class).
+    Both: ONE in-box source plane "x:<base>" (see INBOX_BASES)."""
     if tier == "thorough":
         return "*"
     n_rot, n_m2o, step_rot, step_m2o, rank_m2o = ROTATION[nsub]
     sel = [ROTATING[(rank + step_rot * j + t) % len(ROTATING)] for t in range(n_rot)]
     sel += [M2O[(rank_m2o * rank + step_m2o * j + t) % len(M2O)] for t in range(n_m2o)]
+    # one in-box source plane per case: base number rank + 2*j (nsub == 5: the 5 sub-size maps of a mask cover 5 of the 10
+    # bases, two consecutive masks all 10) / rank + 5*j (nsub == 2: 2 per mask, 5 consecutive masks of a class all 10)
+    sel.append("x:" + INBOX_BASES[(rank + INBOX_STEP[nsub] * j) % len(INBOX_BASES)])
     return ",".join(sel)
 
 
@@ -190,16 +234,23 @@ def cases(tier, seed):
 
 
 def plan_of(case):
-    """Set of transform ids the case runs (cases recorded before the plan entry existed run everything)."""
+    """Set of transform ids the case runs (cases recorded before the plan entry existed run everything; cases recorded
+    before the in-box source planes existed carry no "x:" id and run none)."""
     k = 10 if case[0] == "m" else 12
     p = case[k] if len(case) > k else "*"
+    inbox = set("x:" + b for b in INBOX_BASES)
     if p == "*":
-        return set(TRANSFORMS) | set(M2O)
+        return set(TRANSFORMS) | set(M2O) | inbox
     sel = set(p.split(",")) | set(FIXED)
-    unknown = sel - set(TRANSFORMS) - set(M2O)
+    unknown = sel - set(TRANSFORMS) - set(M2O) - inbox
     if unknown:
         raise ValueError("harness: unknown transform ids %s in case" % sorted(unknown))
     return sel
+
+
+def plan_is_full(case):
+    k = 10 if case[0] == "m" else 12
+    return len(case) <= k or case[k] == "*"
 
 
 def mask_of(case):
@@ -290,18 +341,23 @@ def check_relocation(v, site, B, P, Q, st, ctx, suffix=""):
     """All clauses of the relocation law for input P -> output Q against border point set B.
 
     `suffix` is appended to every finding class (":int-dtype" for integer-dtype inputs: there the dtype of the output is
-    not prescribed - the VALUES decide, an output that inherits the integer dtype truncates every moved point)."""
+    not prescribed - the VALUES decide, an output that inherits the integer dtype truncates every moved point; ":in-box"
+    for source planes without any coordinate beyond the bounding box of the border).
+
+    Returns None when the output cannot be compared point by point, otherwise (untied, tol): the points with ONE accepted
+    nearest border point (their output is determined by the law up to `tol`) and the absolute tolerance used."""
     P = np.asarray(P, dtype=float)
     Q = np.asarray(Q)
+    int_ok = suffix.endswith(":int-dtype")
     if not v.ok(
-        Q.shape == P.shape and (Q.dtype.kind == "f" or (suffix and Q.dtype.kind in "iu")),
+        Q.shape == P.shape and (Q.dtype.kind == "f" or (int_ok and Q.dtype.kind in "iu")),
         site + ":count-order" + suffix,
         lambda: "%s output shape %s dtype %s for input shape %s" % (ctx(), Q.shape, Q.dtype, P.shape),
     ):
         return
     Q = Q.astype(float)
     if P.shape[0] == 0:
-        return
+        return np.zeros(0, dtype=bool), 0.0
     c = np.array([np.mean(B[:, 0]), np.mean(B[:, 1])])
     rb = radii(B, c)
     rmin, rmax = float(rb.min()), float(rb.max())
@@ -361,7 +417,7 @@ def check_relocation(v, site, B, P, Q, st, ctx, suffix=""):
         ):
             k = int(np.flatnonzero(bad_ray | bad_rad)[0])
             v.fail(site + ":count-order" + suffix, lambda: desc(k, "outputs are a permutation of the expected outputs"))
-            return
+            return None
 
     def one(bad, cls, what):
         if bad.any():
@@ -375,6 +431,7 @@ def check_relocation(v, site, B, P, Q, st, ctx, suffix=""):
     one(bad_out, "moved-outward", "output is farther from the centroid than the input")
     one(bad_rad, "radius", "output radius is not min(r_in, radius of a nearest border point)")
     one(bad_max, "beyond-max-border-radius", "output is farther from the centroid than the farthest border point")
+    return cand.sum(axis=1) == 1, tol
 
 
 # ----------------------------------------------------------------------------- value menus
@@ -503,6 +560,47 @@ def point_menus(B, geo, rs):
     return np.array(out), np.array(extra)
 
 
+def inbox_menu(B, rs):
+    """Points of the closed bounding box [lo, hi] of the border point list B that lie where a border leaves room inside
+    its own box - no point of the menu is beyond the extreme y / x values of the border points:
+
+    * the 4 box corners pulled towards the box centre by {1, 5, 10} % of the half-extent (every corner with every
+      fraction: 12 points) and the 4 corners themselves (the diagonal corners around a roundish border);
+    * one point on every side of the box, 1 % inside, at a seed-drawn position along the side (beside a border that
+      touches the side in one place only);
+    * up to 8 border points pushed OUTWARD along their ray from the centroid by {1.05, 1.3, 2} and clipped into the box
+      shrunk by 1 % (just outside the border wherever it does not touch the box: corners and notches);
+    * up to 8 midpoints of pairs of border points (inside the convex hull, hence inside the box: in the notch of a
+      non-convex border, otherwise interior points).
+
+    Whether a point has to move is for the law to say (for a border that fills its box, e.g. two points, nothing moves)."""
+    lo, hi = B.min(axis=0), B.max(axis=0)
+    bc, half, span = 0.5 * (lo + hi), 0.5 * (hi - lo), hi - lo
+    c = np.array([np.mean(B[:, 0]), np.mean(B[:, 1])])
+    nb = B.shape[0]
+    signs = [(1.0, 1.0), (1.0, -1.0), (-1.0, -1.0), (-1.0, 1.0)]
+    frac = (0.01, 0.05, 0.10)
+    pts = []
+    for rot in range(3):
+        for k, sg in enumerate(signs):
+            pts.append(bc + (1.0 - frac[(k + rot) % 3]) * half * np.array(sg))
+        if rot == 0:
+            idx = [int(round(q * nb / float(min(8, nb)))) % nb for q in range(min(8, nb))]
+            for q, k in enumerate(idx):
+                pts.append(np.clip(c + (1.05, 1.3, 2.0)[q % 3] * (B[k] - c), lo + 0.01 * span, hi - 0.01 * span))
+        if rot == 1:
+            for sy, sx in signs:
+                pts.append(np.array([hi[0] if sy > 0 else lo[0], hi[1] if sx > 0 else lo[1]]))
+            t = rs.uniform(0.2, 0.8, size=4)
+            pts.append(np.array([hi[0] - 0.01 * span[0], lo[1] + t[0] * span[1]]))
+            pts.append(np.array([lo[0] + 0.01 * span[0], lo[1] + t[1] * span[1]]))
+            pts.append(np.array([lo[0] + t[2] * span[0], hi[1] - 0.01 * span[1]]))
+            pts.append(np.array([lo[0] + t[3] * span[0], lo[1] + 0.01 * span[1]]))
+    for q, k in enumerate(idx):
+        pts.append(0.5 * (B[k] + B[(k + max(1, nb // 3) + q % 2) % nb]))
+    return np.clip(np.array(pts), lo, hi), lo, hi
+
+
 # ----------------------------------------------------------------------------- the check
 
 
@@ -604,12 +702,18 @@ def run_case(case):
                 return what
         return None
 
-    def check_mesh_data_grid(site, what, B_, keep_, got, ctx_, suffix=""):
+    def check_mesh_data_grid(site, what, B_, keep_, got, ctx_, suffix="", direct=None):
         """Data grid returned by a mesh entry point (mapper_grids_from / mesh.relocated_grid_from, default preloads):
         the relocation law against the call's OWN grid; a result that breaks it and is bitwise the result of an earlier
-        call with a different grid is reported once, as the history defect it is."""
+        call with a different grid is reported once, as the history defect it is.
+
+        `direct`: the result of BorderRelocator.relocated_grid_from for the same grid, already checked against the law (see
+        `same_as_direct`)."""
         Qa = np.asarray(got)
         Qf = Qa.astype(float) if Qa.dtype.kind in "fiu" else Qa
+        if direct is not None and same_as_direct(site, B_, keep_, Qa, direct, ctx_, suffix):
+            earlier.append((keep_, Qf.copy(), what))
+            return Qa
         src = stale_source(keep_, Qf)
         if src is not None:
             tmp = V(ID)
@@ -621,10 +725,42 @@ def run_case(case):
                 return None  # consequences (mesh vertices relocated against that grid's border) are not reported again
         if earlier:
             v.ok(True, site + ":second-call-different-grid")
-        check_relocation(v, site, B_, keep_, Qa, st, ctx_, suffix)
+        info = check_relocation(v, site, B_, keep_, Qa, st, ctx_, suffix)
+        if direct is not None:
+            agrees_with_direct(site, keep_, Qa, direct, info, ctx_, suffix)
         if Qf.shape == keep_.shape:
             earlier.append((keep_, Qf.copy(), what))
         return Qa
+
+    def same_as_direct(site, B_, P_, Qa, direct, ctx_, suffix):
+        """The law is a predicate of (border, input, output): an output that is bit for bit (values, shape, dtype) the output
+        of the direct BorderRelocator call for the same border and input has the verdict of that call - which has been checked
+        clause by clause and carries the finding if there is one - and the two entry points agree."""
+        if direct.dtype == Qa.dtype and direct.shape == Qa.shape and np.array_equal(direct, Qa):
+            v.ok(True, site + ":differs-from-direct-call" + suffix)
+            return True
+        return False
+
+    def agrees_with_direct(site, P_, Qa, direct, info, ctx_, suffix):
+        """Every entry point applies the same rule: where the law determines the output (one accepted nearest border point)
+        the entry point and the direct BorderRelocator call, BOTH checked against the law, are within the tolerance of the
+        law of the same point, hence of each other."""
+        if info is None or direct.shape != Qa.shape:
+            return
+        untied, tol = info
+        diff = np.max(np.abs(Qa.astype(float) - direct.astype(float)), axis=1) if Qa.shape[0] else np.zeros(0)
+        bad = untied & (diff > 10 * tol)
+        v.ok(not bad.any(), site + ":differs-from-direct-call" + suffix,
+             lambda: "%s point #%d %s: this entry point returned %s, the direct BorderRelocator call for the same grid %s"
+             % (ctx_(), int(np.flatnonzero(bad)[0]), np.asarray(P_)[int(np.flatnonzero(bad)[0])].tolist(),
+                Qa[int(np.flatnonzero(bad)[0])].tolist(), direct[int(np.flatnonzero(bad)[0])].tolist()))
+
+    def check_vs_direct(site, B_, P_, got, direct, ctx_, suffix):
+        """Mesh vertices (no history clause): law + agreement with the direct call."""
+        Qa = np.asarray(got)
+        if same_as_direct(site, B_, P_, Qa, direct, ctx_, suffix):
+            return
+        agrees_with_direct(site, P_, Qa, direct, check_relocation(v, site, B_, P_, Qa, st, ctx_, suffix), ctx_, suffix)
 
     def check_untouched(site, keep_, got, ctx_, extra_ok=True):
         """border_relocator=None: the data grid comes back bit for bit."""
@@ -754,6 +890,59 @@ def run_case(case):
     # ------------------------------------------------------------------ integer-dtype coordinates
     run_int_dtype(aa, v, br, mask, m, sm, seed, Gp, sbs, nonborder, rect, tri_meshes, st, desc, check_mesh_data_grid)
 
+    # ------------------------------------------------------------------ in-box source planes
+    # no coordinate beyond the bounding box of the border points: what is outside the border is outside it only in the
+    # corners / notches the border leaves inside its own box.  Every entry point obeys the law and agrees with the direct call.
+    st_in, st_in_mesh = Stats(), Stats()
+    for xid in sorted(t for t in sel if t.startswith("x:")):
+        base = xid[2:]
+        rs = rs_m  # the case's own stream, continued (deterministic per case: the plan is part of the case)
+        S = transform(base, G, geo, rs)
+        menu, lo, hi = inbox_menu(S[sbs], rs)
+        S[nonborder] = np.clip(S[nonborder], lo, hi)
+        slots = nonborder[1::2] if len(nonborder) >= 2 * len(menu) else nonborder
+        for q, k in enumerate(slots[: len(menu)]):
+            S[k] = menu[(q + int(seed)) % len(menu)]
+        B = S[sbs].copy()
+        keep = S.copy()
+        Mv = np.concatenate([menu, B, keep[: min(2, N)]], axis=0)
+        if not (np.all(keep >= lo) and np.all(keep <= hi) and np.all(Mv >= lo) and np.all(Mv <= hi) and dom.exact(B.min(axis=0), lo) and dom.exact(B.max(axis=0), hi)):
+            raise RuntimeError("harness: in-box source plane has a coordinate beyond the bounding box of the border")
+        ctx = lambda: "%s in-box source plane (base transform=%s) data grid=%s" % (desc(), base, keep.tolist())
+        sfx = ":in-box"
+        if sm == "u1":
+            dgrid = lambda: aa.Grid2D(values=keep.copy(), mask=mask)
+        else:
+            dgrid = lambda: aa.Grid2DIrregular(values=keep.copy())
+        mgrid = lambda: aa.Grid2DIrregular(values=Mv.copy())
+        d_data = np.asarray(br.relocated_grid_from(grid=aa.Grid2DIrregular(values=keep.copy())))
+        check_relocation(v, "relocated_grid_from", B, keep, d_data, st_in, ctx, sfx)
+        d_mesh = np.asarray(br.relocated_mesh_grid_from(grid=aa.Grid2DIrregular(values=keep.copy()), mesh_grid=mgrid()))
+        check_relocation(v, "relocated_mesh_grid_from", B, Mv, d_mesh, st_in_mesh, ctx, sfx)
+        # the two AbstractMesh entry points are called on the rectangular mesh (its mapper_grids_from does not relocate mesh
+        # vertices) and reached on the Delaunay mesh through its mapper_grids_from (which relocates the data grid and the mesh
+        # vertices through them); thorough tier, bases of MAPPER_TRANSFORMS: every entry point of Rectangular, Delaunay, Voronoi
+        full = plan_is_full(case) and base in MAPPER_TRANSFORMS
+        for mname, mesh_obj in [("Rectangular", rect)] + list(tri_meshes if full else tri_meshes[:1]):
+            if full or mname == "Rectangular":
+                got = mesh_obj.relocated_grid_from(border_relocator=br, source_plane_data_grid=dgrid())
+                check_mesh_data_grid("mesh.relocated_grid_from", "%s.relocated_grid_from(in-box, base transform=%s)" % (mname, base),
+                                     B, keep, got, ctx, sfx, direct=d_data)
+                got = mesh_obj.relocated_mesh_grid_from(border_relocator=br, source_plane_data_grid=dgrid(), source_plane_mesh_grid=mgrid())
+                check_vs_direct("mesh.relocated_mesh_grid_from", B, Mv, got, d_mesh, ctx, sfx)
+            site = "mapper_grids_from:%s" % mname
+            if mname == "Rectangular":
+                mg = rect.mapper_grids_from(mask=mask, source_plane_data_grid=dgrid(), border_relocator=br)
+            else:
+                mg = mesh_obj.mapper_grids_from(mask=mask, source_plane_data_grid=dgrid(), border_relocator=br,
+                                                source_plane_mesh_grid=mgrid())
+            ok = check_mesh_data_grid(site + ":data-grid", "%s.mapper_grids_from(in-box, base transform=%s)" % (mname, base),
+                                      B, keep, mg.source_plane_data_grid, ctx, sfx, direct=d_data)
+            if ok is not None and mname != "Rectangular":
+                check_vs_direct(site + ":mesh-grid", B, Mv, mg.source_plane_mesh_grid, d_mesh, ctx, sfx)
+    for f in Stats.__slots__:
+        setattr(st, f, getattr(st, f) + getattr(st_in, f) + getattr(st_in_mesh, f))
+
     # cached state must still denote the same border after use
     v.ok(
         dom.exact(np.asarray(br.sub_border_slim), sbs) and dom.exact(np.asarray(br.sub_border_grid), sbg) and dom.exact(np.asarray(br.border_grid), bg),
@@ -763,8 +952,9 @@ def run_case(case):
 
     v.nontrivial = len(sbs) >= 3 and st.moved > 0 and st.kept_outside > 0
     bucket = lambda x: "0" if x == 0 else ("1-9" if x < 10 else ("10-99" if x < 100 else "100+"))
-    v.outcome = "nb=%d|moved=%s|kept-outside=%s|ties=%s|dup-border-planes=%d" % (
-        min(len(sbs), 8), bucket(st.moved), bucket(st.kept_outside), bucket(st.ties), min(st.dup_border, 3))
+    v.outcome = "nb=%d|moved=%s|kept-outside=%s|ties=%s|dup-border-planes=%d|in-box-moved=%s" % (
+        min(len(sbs), 8), bucket(st.moved), bucket(st.kept_outside), bucket(st.ties), min(st.dup_border, 3),
+        "0" if st_in.moved == 0 else "1+")
     return v.result()
 
 
